@@ -126,13 +126,24 @@ ListOK == Part = "list" => \A k \in 1..2 : CodeKw(c, k) = OwnKw(c, k)
 \* c = [models |-> sequence of [data, parent, psExists], next id]; model 1 is the source
 MInit == [models |-> << [data |-> <<"train">>, parent |-> 0, ps |-> TRUE, touched |-> 0] >>, nf |-> 0]
 MaxModels == 4
+MaxOps == 5
 GetFantasy(k) ==
-  /\ Part = "machine" /\ Len(c.models) < MaxModels /\ c.models[k].ps
+  /\ Part = "machine" /\ Len(c.models) < MaxModels /\ c.models[k].ps /\ Len(out) < MaxOps
   /\ c' = [models |-> Append(c.models, [data |-> Append(c.models[k].data, "f" \o ToString(c.nf + 1)), parent |-> k, ps |-> TRUE, touched |-> 0]),
            nf |-> c.nf + 1]
   /\ out' = Append(out, [a |-> "GetFantasy", of |-> k, new |-> Len(c.models) + 1, data |-> Append(c.models[k].data, "f" \o ToString(c.nf + 1))])
 
-SourceUntouched == [][ Part = "machine" => \A k \in 1..Len(c.models) : c'.models[k] = c.models[k] ]_vars
+\* evaluating a model fills its own caches ("touched" counts its evaluations) and nothing else; a fantasy may be created from a
+\* model that has never been evaluated itself (it carries a strategy from its creation) - every interleaving of creations and
+\* evaluations over the family tree is a history
+Predict(k) ==
+  /\ Part = "machine" /\ Len(out) < MaxOps
+  /\ c' = [c EXCEPT !.models[k].touched = 1]
+  /\ out' = Append(out, [a |-> "Predict", of |-> k, new |-> 0, data |-> c.models[k].data])
+\* the denotation of every model is fixed at its creation: (hyperparameters, data)
+DataFixed == [][ Part = "machine" => \A k \in 1..Len(c.models) : c'.models[k].data = c.models[k].data /\ c'.models[k].parent = c.models[k].parent ]_vars
+
+SourceUntouched == [][ Part = "machine" /\ Len(c'.models) > Len(c.models) => \A k \in 1..Len(c.models) : c'.models[k] = c.models[k] ]_vars
 DataIsConcatenation ==
   Part = "machine" => \A k \in 2..Len(c.models) :
      LET p == c.models[k].parent IN SubSeq(c.models[k].data, 1, Len(c.models[p].data)) = c.models[p].data
@@ -146,7 +157,7 @@ Init ==
        [] Part = "machine" -> c = MInit
 
 Next ==
-  IF Part = "machine" THEN \E k \in 1..Len(c.models) : GetFantasy(k)
+  IF Part = "machine" THEN \E k \in 1..Len(c.models) : GetFantasy(k) \/ Predict(k)
   ELSE UNCHANGED vars
 
 Spec == Init /\ [][Next]_vars
